@@ -57,7 +57,7 @@ def sym(ctx, world):
             missing = "JVPNode" if q in a else "VJPNode"
             site = [(m, s) for r, m, s in t.notrace.get("autograd.core.VJPNode", []) + t.notrace.get("autograd.core.JVPNode", []) if r.qual == q][0]
             ctx.fail("A1.sym", q, f"notrace-asym:{q}", loc_of(*site), f"{q} is notrace for one node type but not for {missing}", "differentiate through it in the other mode: one mode returns zero/constant, the other raises or differentiates")
-    ctx.floor("A1.sym instances", len(a | b), 45)
+    ctx.floor("A1.sym instances", len(a | b), 40)
 
 
 def none_rules(ctx, world, scope_numpy_only=True):
@@ -104,7 +104,7 @@ def lin(ctx, world):
                 f"JVP declared as the primitive itself applied to the tangent, but {why}",
                 "any generic point and tangent: f(.., v, ..) != J v (e.g. an affine or non-linear function of that argument)",
             )
-    ctx.floor("A1.lin instances", n, 55)
+    ctx.floor("A1.lin instances", n, 50)
 
 
 def body_linear(world, ref, argnum):
@@ -191,7 +191,7 @@ def methods(ctx, world):
                 ctx.ob("A1.methods", inst, True, loc_of(m, site), sample=f"every return of {tgt.qual} calls anp.{name}")
             else:
                 ctx.fail("A1.methods", inst, f"method:{name}->{tgt.qual}", loc_of(m, site), f"{tgt.qual} does not return anp.{name}(self, ..., **kwargs) on every path (a path drops the receiver, calls another function or loses the keyword options)", f"x.{name}(..., option=...) on a traced array, compared with the same call on an ndarray")
-    ctx.floor("A1.methods decided instances", n - len(undecided_methods), 28)
+    ctx.floor("A1.methods decided instances", n - len(undecided_methods), 26)
 
 
 def _wrapper_reaches(world, ref, name):
